@@ -285,6 +285,18 @@ theorem protocol_independent_of_cleanup_switches_run (cfg : Config) (preserve ra
     SameProto (run (cfg.withSwitches preserve raceFound) State.init es) (run cfg State.init es) :=
   run_switch cfg preserve raceFound State.init es
 
+/-- For an external cluster the MechanicActor reads nothing of the target-host list except whether it is
+empty: two configurations of external clusters whose host lists are both empty or both non-empty
+(whatever the entries look like - URLs with scheme, credentials, path prefix, host objects with client
+options, names that do not resolve) make every handler of the MechanicActor behave identically; with
+`external_untouched` (no Dispatcher, no node actor ever exists) that is the whole behaviour. -/
+theorem external_reads_only_emptiness_of_host_list {cfg cfg' : Config} (h1 : cfg.external = true)
+    (h2 : cfg'.external = true) (h3 : cfg.hosts.isEmpty = cfg'.hosts.isEmpty) (st : MSt) (msg : Msg) (src : Aid) :
+    recvMech cfg st msg src = recvMech cfg' st msg src := by
+  cases msg <;> simp [recvMech, mechStart, h1, h2, h3]
+
+example : exGroupsCfg.hosts.isEmpty = ({ exGroupsCfg with hosts := [(7, 443)], external := true } : Config).hosts.isEmpty := by decide
+
 /-! ## the hypotheses are satisfiable: concrete non-trivial histories -/
 
 /-- two host groups (a local one with two nodes, a remote one), full start and stop -/
